@@ -27,16 +27,70 @@ def parse_summary(line):
     return d
 
 
-def boundary_cases():
-    """the structured exhaustive core: persistent kinds, one tag event, all relative timings"""
+INTERMITTENT_CORE = [(1, 1), (1, 2), (2, 1), (2, 2)]  # (activeDur, inactiveDur) of the exhaustive core
+
+
+def _starts(nrd, n):
+    """the starts the generator can produce: pre-period starts reach back `nrd` days at most
+    (Source.generate_emissions: pre_existing_dates = sim_start - duration ... sim_start - 1)"""
+    return range(-nrd, n + 1)
+
+
+def core_groups():
+    """the structured exhaustive core, by group.  Every group enumerates all relative timings of
+    start / natural end / tag day(s) / repair due day / horizon on its (small) domain; only starts
+    the generator can produce (start >= -nrd) are enumerated, a small fixed sample of the
+    unreachable starts (start < -nrd) is kept in its own, separately counted group.
+      A  persistent kinds, one tag on any day, reporting delay 0 or 2
+      B  intermittent kinds (on/off in {1,2}^2), one tag on any day, reporting delay 0 or 2
+      C  two tag requests (second on the same or any later day, other company, reporting delays
+         {0,2} x {0,2}); persistent and one intermittent repairable kind
+      U  start < -nrd (never generated)"""
+    A, B, C, U = [], [], [], []
     for n in range(1, 9):
-        for start in range(-7, n + 1):
-            for nrd in range(1, 7):
+        for nrd in range(1, 7):
+            for start in _starts(nrd, n):
+                for tag in [None] + list(range(n)):
+                    # non-repairable: repair delay and reporting delay are never read
+                    A.append((start, nrd, 0, False, False, 1, 0, n, [] if tag is None else [(tag, 1, 0)]))
+                    for ad, idur in INTERMITTENT_CORE:
+                        B.append((start, nrd, 0, False, True, ad, idur, n, [] if tag is None else [(tag, 1, 0)]))
+                    for delay in (0, 1, 2, 3):
+                        for trd in ((0,) if tag is None else (0, 2)):
+                            evs = [] if tag is None else [(tag, 1, trd)]
+                            A.append((start, nrd, delay, True, False, 1, 0, n, evs))
+                            if delay != 2:
+                                for ad, idur in INTERMITTENT_CORE:
+                                    B.append((start, nrd, delay, True, True, ad, idur, n, evs))
+    for n in range(2, 7):
+        for nrd in range(1, 5):
+            for start in _starts(nrd, n):
                 for delay in (0, 1, 2, 3):
-                    for tag in [None] + list(range(n)):
+                    for t1 in range(n):
+                        for t2 in range(t1, n):
+                            for trd1 in (0, 2):
+                                for trd2 in (0, 2):
+                                    evs = [(t1, 1, trd1), (t2, 2, trd2)]
+                                    C.append((start, nrd, delay, True, False, 1, 0, n, evs))
+                                    if delay in (0, 3) and trd1 != trd2:
+                                        C.append((start, nrd, delay, True, True, 1, 1, n, evs))
+    for n in (1, 4, 8):
+        for nrd in (1, 2, 3):
+            for start in (-nrd - 3, -nrd - 2, -nrd - 1):
+                for delay in (0, 2):
+                    for tag in (None, 0, n - 1):
                         for rep in (True, False):
-                            evs = [] if tag is None else [(tag, 1, 0)]
-                            yield (start, nrd, delay, rep, False, 1, 0, n, evs)
+                            U.append((start, nrd, delay, rep, False, 1, 0, n, [] if tag is None else [(tag, 1, 0)]))
+    return {"A": A, "B": B, "C": C, "U": U}
+
+
+QUICK_CORE = {"A": 6000, "B": 7000, "C": 4500, "U": 120}
+
+
+def boundary_cases():
+    """every case of the structured exhaustive core"""
+    for g in core_groups().values():
+        yield from g
 
 
 def random_case(rng, big=False):
@@ -75,12 +129,14 @@ def build_cases(ctx):
             seen.add(key)
             cases.append(c)
 
-    core = list(boundary_cases())
-    if ctx.quick:
-        ctx.rng.shuffle(core)
-        core = core[:12000]
-    for c in core:
-        add(c)
+    for g, core in core_groups().items():
+        ctx.count("core:%s:domain" % g, len(core))
+        if ctx.quick:
+            ctx.rng.shuffle(core)
+            core = core[:QUICK_CORE[g]]
+        for c in core:
+            add(c)
+        ctx.count("core:%s:run" % g, len(core))
     for _ in range(ctx.pick(6000, 150000)):
         add(random_case(ctx.rng))
     for _ in range(ctx.pick(150, 3000)):
@@ -103,6 +159,118 @@ def nontrivial_key(case, res):
             min(nrd, 7), min(delay, 4), min(n, 9), res["activeDays"] if res["activeDays"] < 8 else 8)
 
 
+# ------------------------------------------------------------------------------------------------
+# independent closed forms used by the oracles (plain arithmetic, no code of /repo, no Lean model)
+# ------------------------------------------------------------------------------------------------
+def natural_end(start, nrd):
+    """first day on which the emission is no longer active if nobody intervenes (F3 absorbed:
+    an emission activated on day a is active at least that day)"""
+    a, b4 = max(start, 0), max(0, -start)
+    return a + max(1, nrd - b4)
+
+
+def first_effective_tag(case):
+    """(T, event) of the first tag request that reaches the emission while it is active inside the
+    horizon, or None"""
+    (start, nrd, delay, rep, inter, ad, idur, n, evs) = case
+    a = max(start, 0)
+    lim = min(natural_end(start, nrd), n)
+    days = sorted(set(e[0] for e in evs if not (len(e) > 3 and e[3] == 1) and a <= e[0] < lim))
+    if not days:
+        return None
+    T = days[0]
+    return T, next(e for e in evs if e[0] == T and not (len(e) > 3 and e[3] == 1))
+
+
+def pattern_emitting(k, ad, idur):
+    """IntermittencyMixin.update as a closed form: the number of emitting days among the first `k`
+    updates the emission *survived* (it starts emitting at activation, an emitting run lasts
+    max(1, active_duration) days, a non-emitting run max(1, inactive_duration) days)"""
+    on, off = max(1, ad), max(1, idur)
+    return (k // (on + off)) * on + min(k % (on + off), on)
+
+
+def pattern_on(i, ad, idur):
+    """is the i-th active day (1-based) an emitting day of the on/off pattern?"""
+    on, off = max(1, ad), max(1, idur)
+    return (i - 1) % (on + off) < on
+
+
+def surviving_days(active_days, ended):
+    """the update that ends an emission (repair / natural repair / expiry) is not seen by the
+    intermittency toggle: it neither counts as an emitting day nor advances the on/off pattern"""
+    return active_days - 1 if ended and active_days > 0 else active_days
+
+
+def expected_emit_days(inter, ad, idur, active_days, status):
+    if not inter:
+        return active_days
+    return pattern_emitting(surviving_days(active_days, status in ("repaired", "expired")), ad, idur)
+
+
+def hypothesis_keys(case, res):
+    """the decidable hypotheses / domain conditions of the C02-C04 theorems a case satisfies"""
+    (start, nrd, delay, rep, inter, ad, idur, n, evs) = case
+    keys = []
+    keys.append("repairable" if rep else "non-repairable")
+    keys.append("intermittent" if inter else "persistent")
+    if rep and not inter:
+        keys.append("C02_partial(repairable,persistent)")
+    if nrd >= 1 and -nrd <= start:
+        keys.append("C03_statement-domain(nrd>=1,-nrd<=start)")
+        if -nrd < start:
+            keys.append("C03_partial(-nrd<start)")
+    if start == -nrd:
+        keys.append("start==-nrd(F3-domain)")
+    if start < -nrd:
+        keys.append("start<-nrd(never-generated)")
+    if start < 0:
+        keys.append("pre-period")
+    if start + nrd >= n:
+        keys.append("natural-end>=last-day")
+    if res["status"] != "inactive":
+        keys.append("became-active")
+    if res["mitDays"] > 0:
+        keys.append("mit>0")
+    ft = first_effective_tag(case)
+    if ft is not None and rep:
+        T, e = ft
+        keys.append("tagged-while-active")
+        if T + max(1, delay + e[2]) > natural_end(start, nrd):
+            keys.append("tag-fewer-than-delta-days-before-natural-end")
+        if T + max(1, delay + e[2]) == natural_end(start, nrd):
+            keys.append("repair-due-exactly-at-natural-end")
+        if T + max(1, delay + e[2]) > n:
+            keys.append("repair-due-after-horizon")
+        later = [x for x in evs if not (len(x) > 3 and x[3] == 1) and x is not e and x[0] >= T
+                 and x[0] < min(natural_end(start, nrd), n, T + max(1, delay + e[2]))]
+        if any(x[1] != e[1] or x[2] != e[2] for x in later):
+            keys.append("second-tag-differs-while-waiting")
+    if res["status"] == "repaired" and res["by"].startswith("c"):
+        keys.append("C04_repair_needs_tag(repaired-by-company)")
+    if res["status"] == "active" and res["by"].startswith("c") and rep:
+        keys.append("C04_never_later(active,tagged)")
+    if res["status"] == "repaired" and res["by"] == "natural" and ft is not None:
+        keys.append("C04_natural_first(natural,tagged-before)")
+    return keys
+
+
+def count_hypotheses(ctx, case, res, prefix="hyp:"):
+    ctx.count(prefix + "cases")
+    for k in hypothesis_keys(case, res):
+        ctx.count(prefix + k)
+
+
+def finish_hit_rates(ctx):
+    """evidence: hit rate of every hypothesis over the unit cases of this run"""
+    for prefix, name in (("hyp:", "hypothesis_hit_rate"), ("hyp-shared:", "hypothesis_hit_rate_shared_component")):
+        n = ctx.counts.get(prefix + "cases", 0)
+        if n:
+            ctx.extra[name] = {k[len(prefix):]: round(v / n, 5) for k, v in sorted(ctx.counts.items())
+                               if k.startswith(prefix) and k != prefix + "cases"}
+            ctx.extra[name]["(cases)"] = n
+
+
 def correspond(ctx, cases, component="emission"):
     """runs implementation and model on the cases; returns list of (case, impl_result_dict, model_line, impl_line)"""
     from harness.adapters import emission as E
@@ -122,6 +290,7 @@ def correspond(ctx, cases, component="emission"):
             ctx.nontrivial.add(k)
         ctx.count("kind:%s%s" % ("rep" if c[3] else "nonrep", "-interm" if c[4] else ""))
         ctx.count("end:" + res["status"] + "/" + (res["by"] if not res["by"].startswith("c") else "company"))
+        count_hypotheses(ctx, c, res)
         out.append((c, res, ml, il))
     ctx.traces += len(cases)
     return out
@@ -133,16 +302,42 @@ def impl_result(case):
     return parse_summary(E.impl_line(case))
 
 
+def impl_full(case):
+    """(summary dict, per-day trace) of the real classes; a per-day entry is
+    status:activeDays:daysEmitting:tagged:dst:emitting"""
+    from harness.adapters import emission as E
+
+    line, per_day = E.trace_line(case)
+    return parse_summary(line), per_day
+
+
+def life_trace(per_day):
+    """the per-day trace without the tagged / recorded flag and the days-since-tagged counter (the two
+    fields an event legitimately changes on a non-repairable emission: `_record`)"""
+    out = []
+    for x in per_day:
+        f = x.split(":")
+        out.append(":".join([f[0], f[1], f[2], f[5]]))
+    return out
+
+
 # ------------------------------------------------------------------------------------------------
 # whole-run stage shared by C02 / C03 / C04 (/ C11): real simulator runs, records joined with the
 # baseline program's records of the same simulation, tag events of each record's component
 # ------------------------------------------------------------------------------------------------
-def run_configs(ctx, n, **overrides):
-    """n generated configurations run by the real simulator (in parallel); returns list of Result"""
+def run_configs(ctx, n, extra_sources_every=0, **overrides):
+    """n generated configurations run by the real simulator (in parallel); returns list of Result.
+    `extra_sources_every=k`: every k-th configuration is granular with the opt-in extra sources
+    (non-persistent non-repairable source, second repairable source on one component)"""
     import concurrent.futures as cf
     from harness import wholerun as W
 
-    cfgs = [W.make_config(ctx.rng, **overrides) for _ in range(n)]
+    cfgs = []
+    for i in range(n):
+        ov = dict(overrides)
+        if extra_sources_every and i % extra_sources_every == extra_sources_every - 1:
+            ov.update(granular=True, extra_sources=True)
+        cfgs.append(W.make_config(ctx.rng, **ov))
     with cf.ThreadPoolExecutor(max_workers=min(8, max(1, n))) as ex:
         results = list(ex.map(lambda c: W.run_config(c, debug=True, trace=True), cfgs))
     good = []
@@ -156,6 +351,14 @@ def run_configs(ctx, n, **overrides):
             continue
         good.append(r)
     if not good and results:
+        from harness import core
+
+        known = {f["signature"] for f in core.load_findings().get("findings", []) if f["property"] == ctx.prop}
+        if ctx.disagreements or any(v["signature"] not in known for v in ctx.violations):
+            # the earlier stages already hold a failing input / a disagreement: the crash of every whole
+            # run is most likely the same change of the code showing up again - report what was found
+            ctx.note("every whole run crashed; verdict rests on the unit stages: " + last.strip().splitlines()[-1][:200])
+            return good
         raise RuntimeError("every whole run failed (infrastructure): " + last[-2000:])
     return good
 
@@ -171,15 +374,32 @@ def int_days(vol, rate):
     return int(round(x))
 
 
+def _ident(row):
+    return (row["Date Began"], row['"True" Rate (g/s)'])
+
+
 def records(res):
-    """yields dict per (program, sim, emission) with integer-day fields and the baseline's twin"""
+    """yields dict per (program, sim, emission) with integer-day fields and the baseline's twin.
+
+    Emission ids are unique per *source*; two sources of the same repairability on one component (the
+    opt-in `extra_sources` configurations) produce rows with equal (site, equipment, component,
+    repairable, id).  Such rows are paired with their baseline twin through (start date, rate) as well;
+    a pair that is still ambiguous is yielded with "ambiguous_twin" (oracles skip and count it), and
+    rows whose key is shared carry "dup_key" (their detection-only events cannot be attributed)."""
     cfg = res.cfg
     src_of = {}
     if cfg["granular"]:
         for s in cfg["sources"]:
+            prev = src_of.get((s["component"], s["repairable"]))
+            kind = (True,) if s["persistent"] else (False, s["active"], s["inactive"])
+            if prev is not None and kind != ((True,) if prev["persistent"] else (False, prev["active"], prev["inactive"])):
+                raise RuntimeError("two sources of one component and repairability differ in intermittency: "
+                                   "records cannot be attributed")
             src_of[(s["component"], s["repairable"])] = s
     for sim in range(res.n_sims):
-        base = {record_key(r): r for r in (res.emissions(cfg["baseline"], sim) or [])}
+        base = {}
+        for r in (res.emissions(cfg["baseline"], sim) or []):
+            base.setdefault(record_key(r), []).append(r)
         for prog in res.programs:
             rows = res.emissions(prog, sim) or []
             tr = next((t for t in res.trace if t["prog"] == prog and t["sim"] == sim), {"events": []})
@@ -191,6 +411,9 @@ def records(res):
                 elif e[0] == "detect":
                     dets.setdefault((e[2], e[3], e[4], e[7], e[6]), []).append((idx, e))
             surveys = [e for e in tr["events"] if e[0] == "survey"]
+            n_key = {}
+            for r in rows:
+                n_key[record_key(r)] = n_key.get(record_key(r), 0) + 1
             for r in rows:
                 rep = r["Repairable"] == "True"
                 kind = cfg["rep"] if rep else cfg["nonrep"]
@@ -199,8 +422,18 @@ def records(res):
                 inter = bool(src) and not src["persistent"]
                 start = res.day_index(r["Date Began"])
                 rate = float(r['"True" Rate (g/s)'])
+                dup = n_key[record_key(r)] > 1
+                cands = base.get(record_key(r), [])
+                ambiguous = False
+                if len(cands) > 1 or dup:
+                    cands = [b for b in cands if _ident(b) == _ident(r)]
+                    mine = [x for x in rows if record_key(x) == record_key(r) and _ident(x) == _ident(r)]
+                    ambiguous = len(cands) > 1 or len(mine) > 1
+                twin = cands[0] if len(cands) == 1 and not ambiguous else None
+                det_events = [] if dup else dets.get((r["Site ID"], r["Equipment"], r["Component"], rep, r["Emissions ID"]), [])
                 d = {
-                    "prog": prog, "sim": sim, "key": record_key(r), "row": r, "base": base.get(record_key(r)),
+                    "prog": prog, "sim": sim, "key": record_key(r), "row": r, "base": twin,
+                    "ambiguous_twin": ambiguous, "dup_key": dup,
                     "repairable": rep, "intermittent": inter,
                     "adur": src["active"] if inter else 1, "idur": src["inactive"] if inter else 0,
                     "start": start, "nrd": kind["duration"], "rate": rate,
@@ -216,8 +449,7 @@ def records(res):
                     # tag requests reaching the record's component and detection-only events of this
                     # emission, merged in the order the simulator produced them
                     "tags": [e for _, e in sorted(
-                        tags.get((r["Site ID"], r["Equipment"], r["Component"]), [])
-                        + dets.get((r["Site ID"], r["Equipment"], r["Component"], rep, r["Emissions ID"]), []),
+                        tags.get((r["Site ID"], r["Equipment"], r["Component"]), []) + det_events,
                         key=lambda x: x[0])],
                     "surveys": surveys,
                 }
@@ -260,14 +492,23 @@ def conform_records(ctx, res, recs):
     out = LeanDriver("drv_emission").run(lines)
     ok = {}
     got = {}
+    def rk(rec):
+        return (rec["prog"], rec["sim"], rec["key"], rec["row"]["Date Began"], rec["row"]['"True" Rate (g/s)'],
+                rec["status"], rec["activeDays"])
+
+    def cut(line, rec):
+        # rows sharing their key with another row: detection-only events cannot be attributed, the two
+        # "initially detected" fields are left out of the comparison
+        return " ".join(line.split()[:7]) if rec["dup_key"] else line
+
     for rec, ml in zip(owners, out):
-        want = record_summary(rec, method_ids)
-        k = (rec["prog"], rec["sim"], rec["key"])
+        want = cut(record_summary(rec, method_ids), rec)
+        k = rk(rec)
         got.setdefault(k, []).append(ml.split(" | ")[0])
-        if ml.split(" | ")[0] == want:
+        if cut(ml.split(" | ")[0], rec) == want:
             ok[k] = True
     for rec in recs:
-        k = (rec["prog"], rec["sim"], rec["key"])
+        k = rk(rec)
         ctx.evaluations += 1
         ctx.traces += 1
         if not ok.get(k):
@@ -294,12 +535,17 @@ def base_fields(rec):
 def wholerun_stage(ctx, n_quick, n_thorough, per_record, per_result=None, **overrides):
     """runs generated configurations through the real simulator; trace conformance of every record
     against the Lean model; `per_record(ctx, res, rec)` evaluates the property's oracle"""
-    results = run_configs(ctx, ctx.pick(n_quick, n_thorough), **overrides)
+    results = run_configs(ctx, ctx.pick(n_quick, n_thorough), extra_sources_every=2, **overrides)
     try:
         for res in results:
             recs = list(records(res))
             conform_records(ctx, res, recs)
             for rec in recs:
+                if rec["ambiguous_twin"]:
+                    ctx.count("wholerun_ambiguous_twin_skipped")
+                    continue
+                if rec["dup_key"]:
+                    ctx.count("wholerun_records_sharing_key_with_other_source")
                 if rec["emitDays"] is None or rec["mitDays"] is None:
                     ctx.violate("volume-not-integer-days",
                                 "a reported volume is not an integer number of days x rate x 86.4",
@@ -312,6 +558,8 @@ def wholerun_stage(ctx, n_quick, n_thorough, per_record, per_result=None, **over
                 per_result(ctx, res, recs)
             ctx.count("wholerun_configs")
             ctx.sample({"whole_run": {k: res.cfg[k] for k in ("granular", "start", "end", "n_sites", "repair_delay")},
+                        "sources": [(x["source"], x["component"], x["repairable"], x["persistent"])
+                                    for x in res.cfg.get("sources", [])],
                         "records": len(recs)}, cap=8)
     finally:
         for res in results:
@@ -342,8 +590,9 @@ def small_world(rng):
     return n, comps
 
 
-def world_emission_results(world, with_events=True):
-    """drive real Components holding several emissions each; returns [(case_tuple, summary_dict)]"""
+def world_emission_results(world, with_events=True, traces=None):
+    """drive real Components holding several emissions each; returns [(case_tuple, summary_dict)];
+    `traces` (a list) receives the per-day trace of every emission, in the order of the result"""
     from datetime import timedelta
     from harness.adapters import emission as E
     from file_processing.output_processing.output_utils import EmisInfo, TsEmisData
@@ -351,10 +600,11 @@ def world_emission_results(world, with_events=True):
 
     n, comps = world
     real = []
+    per_day = {}
     for ems, evs in comps:
         objs = [E.make_emission(st, nrd, dl, rep, inter, ad, idur, rate=r / 1024.0) for (st, nrd, dl, rep, inter, ad, idur, r) in ems]
         real.append((E.make_component(objs), evs if with_events else [], ems, objs))
-    for dn in range(n):
+    for dn in range(E.simulated_days(n)):
         cur = E.SIM_START + timedelta(days=dn)
         for comp, evs, _, _ in real:
             comp.activate_emissions(cur, 0)
@@ -370,29 +620,42 @@ def world_emission_results(world, with_events=True):
         info, data = EmisInfo(), TsEmisData()
         for comp, _, _, _ in real:
             comp.update_emissions_state(info, data)
+        if traces is not None:
+            for comp, _, _, objs in real:
+                for em in objs:
+                    per_day.setdefault(id(em), []).append("%s:%d:%d:%d:%d:%d" % (
+                        em.get_status(), em._active_days, em.get_days_emitting(),
+                        1 if getattr(em, "_tagged", getattr(em, "_record", False)) else 0,
+                        getattr(em, "_days_since_tagged", 0), 1 if em.is_emitting() else 0))
     out = []
     for comp, evs, ems, objs in real:
         for spec, em in zip(ems, objs):
             sd = em.get_summary_dict(E.summary_end_date(n))
             case = tuple(spec[:7]) + (n, list(evs))
             out.append((case, parse_summary(E.summary_line(em, sd))))
+            if traces is not None:
+                traces.append(per_day.get(id(em), []))
     return out
 
 
-def shared_component_stage(ctx, per_emission):
+def shared_component_stage(ctx, per_emission, per_trace=None):
     """`per_emission(ctx, case, result, baseline_result, world)` evaluates a property's oracle on every
     emission of random worlds in which several emissions share a component; also checks each emission
-    against the single-emission Lean model (emissions of one component must not influence each other)"""
+    against the single-emission Lean model (emissions of one component must not influence each other).
+    `per_trace(ctx, case, per_day, baseline_per_day, world)` (optional) sees the per-day traces."""
     worlds = [small_world(ctx.rng) for _ in range(ctx.pick(800, 15000))]
     lines, owners = [], []
     from harness.adapters import emission as E
 
     for w in worlds:
-        with_ev = world_emission_results(w, True)
-        without = world_emission_results(w, False)
-        for (case, res), (_, base) in zip(with_ev, without):
+        t1, t0 = ([], []) if per_trace is not None else (None, None)
+        with_ev = world_emission_results(w, True, traces=t1)
+        without = world_emission_results(w, False, traces=t0)
+        for i, ((case, res), (_, base)) in enumerate(zip(with_ev, without)):
             lines.append(E.case_line(case))
             owners.append((w, case, res, base))
+            if per_trace is not None:
+                per_trace(ctx, case, t1[i], t0[i], w)
     out = LeanDriver("drv_emission").run(lines)
     for (w, case, res, base), ml in zip(owners, out):
         ctx.evaluations += 1
@@ -401,6 +664,7 @@ def shared_component_stage(ctx, per_emission):
             ctx.disagree("emission/shared-component", {"world": w, "case": list(case)}, mres, res)
             ctx.count("shared_component_disagree")
         per_emission(ctx, case, res, base, w)
+        count_hypotheses(ctx, case, res, prefix="hyp-shared:")
         k = nontrivial_key(case, res)
         if k is not None:
             ctx.nontrivial.add(("sc",) + k)
